@@ -358,8 +358,30 @@ def quadratic_vcs():
     return out
 
 
+def interpolate_clause(u, v, r, mode_cq, b='qb'):
+    """clause of lsearch_step_t::interpolate a caller may assume on its (arbitrary) result r: in cubic or quadratic mode, on two distinct samples
+    u = (t, q(t), q'(t)), v likewise, of q(t) = qa t^2 + b t + qc with qa > 0, the result is the exact minimiser (division-free: 2 qa r = -b)"""
+    q = lambda t: f'(+ (* qa {t} {t}) (* {b} {t}) qc)'
+    dq = lambda t: f'(+ (* 2.0 qa {t}) {b})'
+    smp = AND(*[f'(and (= {x[1]} {q(x[0])}) (= {x[2]} {dq(x[0])}))' for x in (u, v)])
+    return IMP(AND(mode_cq, '(> qa 0.0)', f'(not (= {u[0]} {v[0]}))', smp), f'(= (* 2.0 qa {r}) (- {b}))')
+
+
+def interpolate_vcs():
+    """interpolate = the selection proved by back end A (lstep_interpolate_select), restated over the reals with std::isfinite(kernel result) := "the
+    kernel's divisions / sqrt are defined" (stated assumption), applied to the extracted kernel terms"""
+    u, v = INPUTS[:3], INPUTS[3:]
+    (tc, dc), (tq, dq), (tb, _) = apply('cubic', u, v), apply('quadratic', u, v), apply('bisection', u, v)
+    sel = f'(ite (and m_cubic {dc}) {tc} (ite (and (or m_cubic m_quadratic) {dq}) {tq} {tb}))'
+    decl = REAL6 + [('qa', 'Real'), ('qb', 'Real'), ('qc', 'Real'), ('m_cubic', 'Bool'), ('m_quadratic', 'Bool')]
+    src = kernel('cubic')['src']
+    return [mkvc('convexq/interpolate/exact: interpolate in cubic or quadratic mode on two distinct samples of a convex quadratic returns its exact minimiser (selection of '
+                 'lstep_interpolate_select over the extracted kernels; isfinite = defined)', decl, [], interpolate_clause(u, v, sel, '(or m_cubic m_quadratic)'),
+                 'lsearch_step_t::interpolate on a convex quadratic (double treated as real)', src)]
+
+
 def build():
-    vcs = stationary_vcs() + quadratic_vcs()
+    vcs = stationary_vcs() + quadratic_vcs() + interpolate_vcs()
     fns = [kernel(c)['fn'] for c in ('cubic', 'quadratic', 'secant', 'bisection')]
     return vcs, fns
 
